@@ -3,7 +3,7 @@
 and writes /verif/seeded/<id>/meta.json plus /verif/seeded/MATRIX.md. Never touches /repo's working tree."""
 import json, os, subprocess, sys, re
 root = '/verif/seeded'
-extra = {'C15-m2': ['C14'], 'C16-m2': ['C14'], 'C05-m1': ['C03'], 'C02-m1': ['C07'], 'C17-m2': ['C11'], 'C04-m1': ['C11'], 'C18-m2': ['C08'], 'C08-m1': ['C18'], 'C08-m2': ['C18']}
+extra = {'C15-m3': ['C10'], 'C10-m4': ['C12'], 'C15-m2': ['C14'], 'C16-m2': ['C14'], 'C05-m1': ['C03'], 'C02-m1': ['C07'], 'C17-m2': ['C11'], 'C04-m1': ['C11'], 'C18-m2': ['C08'], 'C08-m1': ['C18'], 'C08-m2': ['C18']}
 only = sys.argv[1:]
 rows = []
 for d in sorted(os.listdir(root)):
